@@ -700,10 +700,10 @@ func (c *Ctx) trvRoles() *trvRoleNames {
 				switch ft := f.Type().Underlying().(type) {
 				case *types.Map:
 					if isIntType(ft.Elem()) {
-						r.status = f.Name()
+						r.status = refFieldName(tn.Type(), st, i)
 					}
 				case *types.Signature:
-					r.visitor = f.Name()
+					r.visitor = refFieldName(tn.Type(), st, i)
 				case *types.Pointer:
 					if ost, ok := ft.Elem().Underlying().(*types.Struct); ok && f.Embedded() {
 						for j := 0; j < ost.NumFields(); j++ {
@@ -711,9 +711,9 @@ func (c *Ctx) trvRoles() *trvRoleNames {
 							if bt, ok := of.Type().Underlying().(*types.Basic); ok {
 								switch {
 								case bt.Kind() == types.Bool:
-									r.inverse = of.Name()
+									r.inverse = refFieldName(ft.Elem(), ost, j)
 								case bt.Info()&types.IsInteger != 0:
-									r.maxConc = of.Name()
+									r.maxConc = refFieldName(ft.Elem(), ost, j)
 								}
 							}
 						}
@@ -726,7 +726,7 @@ func (c *Ctx) trvRoles() *trvRoleNames {
 			f := st.Field(i)
 			if mt, ok := f.Type().Underlying().(*types.Map); ok && st.NumFields() == 1 {
 				if _, isPtr := mt.Elem().Underlying().(*types.Pointer); isPtr {
-					r.vertices = f.Name()
+					r.vertices = refFieldName(tn.Type(), st, i)
 				}
 			}
 		}
